@@ -17,7 +17,7 @@ RULE = (
     "clients and an order that left the live list; distinct = distinct trace JSON."
 )
 ASSUMPTIONS = [
-    "adoption from the order stream (live mode) is exercised by the C11 check on the live double",
+    "live mode (adoptions, replacements, stream/response interleavings) is driven through the C11 schedule generator on the live double with the blotter invariants evaluated after every operation",
 ]
 CHECKS = ("blotter",)
 
@@ -26,10 +26,64 @@ def sub_machine(col, budget, seed, tier, shard, nshards):
     M.run(col, SimWorld, CHECKS, M.base_cfg(limits="none", handicaps=True), budget, 30 if tier == "quick" else 60, seed, tier, "blotter")
 
 
+# ---- live mode: blotter coherence after every step of a generated live schedule (adoptions, replacements) ----
+
+
+def live_invariant(d, op):
+    from ..common import Violation
+
+    m = d.lab.market(0)
+    if m is None:
+        return
+    blotter = m.blotter
+    orders = list(blotter)
+    if len({id(o) for o in orders}) != len(orders):
+        raise Violation("blotter-membership", ("live",), "duplicate order objects in the blotter", d.c)
+    live = list(blotter.live_orders)
+    for o in orders:
+        strat = o.trade.strategy
+        views = {
+            "strategy_orders": blotter.strategy_orders(strat),
+            "strategy_selection_orders": blotter.strategy_selection_orders(strat, o.selection_id, o.handicap),
+            "client_orders": blotter.client_orders(o.client),
+            "client_strategy_orders": blotter.client_strategy_orders(o.client, strat),
+            "trade": blotter._trades.get(o.trade, []),
+        }
+        for name, v in views.items():
+            n = sum(1 for x in v if x is o)
+            if n != 1:
+                raise Violation("blotter-view", (name, "live"), "order appears %d times in %s after %s" % (n, name, op["op"]), d.c)
+        n_live = sum(1 for x in live if x is o)
+        if not o.complete and n_live != 1:
+            raise Violation("live-list-missing-live-order", (o.status.name if o.status else "None", "live"),
+                            "order %s (bet %s) appears %d times in live_orders after %s" % (o.status.name if o.status else None, o.bet_id, n_live, op["op"]), d.c)
+        if n_live > 1:
+            raise Violation("blotter-view", ("live_orders", "live"), "order appears %d times in live_orders" % n_live, d.c)
+        if blotter[o.id] is not o or d.lab.fw.markets.get_order(o.market_id, o.id) is not o:
+            raise Violation("blotter-lookup", ("id", "live"), "lookup by id returns another object", d.c)
+    d.classes.add("live-invariant-checked")
+
+
+def check_live(c):
+    from . import c11
+
+    return c11.check(c, after_op=live_invariant, convergence=False)
+
+
+def sub_live(col, budget, seed, tier, shard, nshards):
+    from ..common import run_given
+    from . import c11
+
+    run_given(col, c11.schedule(tier), check_live, budget, seed, tier, "live")
+
+
 def subchecks(tier):
     q = tier == "quick"
-    return [SubCheck("blotter", sub_machine, 1000 if q else 30000)]
+    return [SubCheck("blotter", sub_machine, 1000 if q else 30000), SubCheck("live", sub_live, 6000 if q else 200000)]
 
 
 def replay(case, sub=None):
-    replay_trace(SimWorld, CHECKS, case)
+    if isinstance(case, dict) and "ops" in case:
+        check_live(case)
+    else:
+        replay_trace(SimWorld, CHECKS, case)
